@@ -460,10 +460,61 @@ def cloneclock_cases(tier):
     return out
 
 
+# ----------------------------------------------------------------------------- the band edge in floating point
+#
+# The band is the written one, goal-|tol| <= state <= goal+|tol|, evaluated in floats.  Non-dyadic decimals (0.1, 0.3, 0.7,
+# 1.1 ...) make the two edges inexact, so states exactly ON an edge (as computed, and as the decimal literal a user would
+# write) and one ulp inside / outside separate the written test from rearrangements such as |state-goal| <= |tol|.
+
+def edge_states(goal, tol):
+    import math
+    t = abs(tol)
+    lo, hi = goal - t, goal + t
+    dlo, dhi = round(goal - t, 2), round(goal + t, 2)        # the decimal literal, e.g. -1.1
+    out = []
+    for name, v in (("lo-edge", lo), ("hi-edge", hi), ("lo-decimal", dlo), ("hi-decimal", dhi),
+                    ("lo-outside", math.nextafter(lo, -math.inf)), ("lo-inside", math.nextafter(lo, math.inf)),
+                    ("hi-inside", math.nextafter(hi, -math.inf)), ("hi-outside", math.nextafter(hi, math.inf)),
+                    ("lo-decimal-below", math.nextafter(dlo, -math.inf)), ("lo-decimal-above", math.nextafter(dlo, math.inf)),
+                    ("hi-decimal-below", math.nextafter(dhi, -math.inf)), ("hi-decimal-above", math.nextafter(dhi, math.inf)),
+                    ("centre", goal)):
+        if all(v != w for _, w in out):
+            out.append((name, v))
+    return out
+
+
+def edge_cases(tier):
+    out = []
+    goals = [-1.0, 0.3, 0.7, 1.1] + ([0.05, 0.15, -0.35, 2.2, 100.1] if tier == "thorough" else [])
+    tols = [0.1, 0.3, 0.7, -0.1] + ([0.05, -0.3, 0.15, 1.1] if tier == "thorough" else [])
+    variants = [("direct", "==", False, "go"), ("indirect", "==", False, "go"), ("direct", "!=", False, "go"),
+                ("indirect", "!=", False, "go"), ("direct", "==", True, "go"), ("indirect", "!=", True, "go"),
+                ("direct", "==", False, "let"), ("indirect", "==", True, "let")]
+    for mode, op, neg, form in variants:
+        for goal in goals:
+            for tol in tols:
+                for sname, state in edge_states(goal, tol):
+                    cond = ".s %s %s +- %s" % (op, lit(goal) if mode == "direct" else ".g", lit(tol))
+                    if neg:
+                        cond = "not " + cond
+                    inits = ["init .s with value %s" % lit(state)]
+                    if mode == "indirect":
+                        inits.append("init .g with value %s" % lit(goal))
+                    case = dict(family="edge-%s-%s" % (form, mode), cond=cond, label="%s   [.s = %s, %s]" % (cond, lit(state), sname),
+                                inits=inits, pre=[], horizon=2, clauses=[("cmp", state, op, goal, tol, neg)],
+                                group="edge|%s|%s|%s%s|%s" % (form, mode, "not " if neg else "", op, sname.split("-")[0]))
+                    if form == "let":
+                        case["text"] = "\n".join(["house h"] + inits + ["framer f be active first a", "frame a", "  go b", "frame b",
+                                                                        "  let me if " + cond, "framer twin be active first x",
+                                                                        "frame x", ""])
+                    out.append(case)
+    return out
+
+
 def all_cases(tier):
     return (cmp_cases(tier) + field_cases(tier) + bool_cases(tier) + clock_cases(tier) + conj_cases(tier)
             + clone_cases(tier) + script_cases(tier) + env_cases(tier) + conjseq_cases(tier)
-            + cloneclock_cases(tier))
+            + cloneclock_cases(tier) + edge_cases(tier))
 
 
 def program(case):
